@@ -139,7 +139,23 @@ func NewBoard(f string, seed int64) *board.Board {
 	if err != nil || pos == nil {
 		panic(fmt.Sprintf("bridge.NewBoard(%q): %v", f, err))
 	}
-	return board.NewBoard(board.NewZobristTable(seed), pos, turn, np, fm)
+	return board.NewBoard(Table(seed), pos, turn, np, fm)
+}
+
+// DegenerateSeed selects the zero value of board.ZobristTable: every key is 0, so EVERY position
+// hashes to 0. What a game board reports about positions (repetitions, draws) and what a search
+// without a hash table returns must not depend on hash values at all - a hash is at most a
+// pre-filter there - so all of it must come out the same under this table, where the
+// "2^-64 coincidence" happens at every step. (Only C07, whose subject is the hash itself, and the
+// transposition table, which is keyed by it by design, are entitled to a working table.)
+const DegenerateSeed = int64(-1 << 63)
+
+// Table returns the Zobrist table for a seed (see DegenerateSeed).
+func Table(seed int64) *board.ZobristTable {
+	if seed == DegenerateSeed {
+		return &board.ZobristTable{}
+	}
+	return board.NewZobristTable(seed)
 }
 
 // FindImpl returns the implementation's pseudo-legal move with the given text.
